@@ -19,26 +19,26 @@ theorem DWake.client_flush (s0 r0 : Nat) (hr : r0 ∈ ([2, 0, 1] : List Nat)) : 
 /-- **no lost wake-up at pipeline level, in every state of every schedule** -/
 theorem DWake.micro : ∀ rt, MReach rt → ∀ s, DWakeP s (getS rt s) rt.client := by
   apply MReach.inv' (fun rt => ∀ s, DWakeP s (getS rt s) rt.client)
-  · intro ring cfgs prog s _ _ _
+  · intro ring cfgs prog s _ _
     rw [getS_initRT]
     split
     · rename_i hlt; cases cfgs[s] <;> exact ⟨by simp [initStream], by simp [initStream]⟩
     · exact ⟨by simp, by simp⟩
   · intro s a ha rt hr hg h
     refine all_setS_cl DWakeP rt s _ ?_ h
-    intro hf he hm
-    rw [(src_keeps_script s a ha _).1] at hf; rw [(src_keeps_script s a ha _).2] at he
-    exact DWake.src s rt.client a ha _ hg (DUse.micro rt hr s hf he hm) (h s hf he hm)
+    intro he hm
+    rw [(src_keeps_script s a ha _).2] at he
+    exact DWake.src s rt.client a ha _ hg (DUse.micro rt hr s he hm) (h s he hm)
   · intro s a ha rt _ hg h
     refine all_setS_cl DWakeP rt s _ ?_ h
-    intro hf he hm
-    rw [(flt_keeps_script a ha _).1] at hf; rw [(flt_keeps_script a ha _).2] at he
-    exact DWake.flt s rt.client a ha _ hg (h s hf he hm)
+    intro he hm
+    rw [(flt_keeps_script a ha _).2] at he
+    exact DWake.flt s rt.client a ha _ hg (h s he hm)
   · intro s a ha rt hr hg h
     refine all_setS_cl DWakeP rt s _ ?_ h
-    intro hf he hm
-    rw [(snk_keeps_script s a ha _).1] at hf; rw [(snk_keeps_script s a ha _).2] at he
-    exact DWake.snk s rt.client rt.state a ha _ hg (TInvAll.micro rt hr s) (DUse.micro rt hr s hf he hm) (h s hf he hm)
+    intro he hm
+    rw [(snk_keeps_script s a ha _).2] at he
+    exact DWake.snk s rt.client rt.state a ha _ hg (TInvAll.micro rt hr s) (DUse.micro rt hr s he hm) (h s he hm)
   · intro a ha rt hr hg h
     exact client_families DWake.Kept DWake.client_base DWake.client_mon DWake.client_cfg DWake.client_start DWake.client_err
       DWake.client_stop DWake.client_acc DWake.client_flush a ha rt (TInvAll.micro rt hr) (DUse.micro rt hr) hg h
